@@ -201,12 +201,25 @@ let () =
                | Generator.EPic p -> Printf.sprintf "P%s:%s:%s" (string_of_z p.Generator.p_addr)
                                        (string_of_z p.Generator.p_cases)
                                        (String.concat "," (List.map (fun i -> string_of_int (nat_to_int i)) p.Generator.p_methods))) in
-           print_string (Printf.sprintf "OK %s %s %s %s %d | %s | %s\n"
+           let gd = Records.generation_data im in
+           let mr (r : Records.method_rec) = Printf.sprintf "%s:%s:%s:%s" (string_of_z r.Records.r_addr)
+               (string_of_z r.Records.r_full_size) (string_of_z r.Records.r_calls) (string_of_z r.Records.r_depth) in
+           let recs = Printf.sprintf "%s %s %s %s %s ; %s ; %s"
+               (string_of_z gd.Records.gd_nb_methods) (string_of_z gd.Records.gd_nb_pics)
+               (fl_s gd.Records.gd_mean_method_size) (fl_s gd.Records.gd_pics_mean_case_nb)
+               (string_of_z (Records.id_draws im))
+               (String.concat " " (List.map mr (Records.methods_info im)))
+               (String.concat " " (List.map (fun (p : Records.pic_rec) ->
+                    Printf.sprintf "%s:%s:%s[%s]" (string_of_z p.Records.pr_addr) (string_of_z p.Records.pr_full_size)
+                      (string_of_z p.Records.pr_cases) (String.concat "," (List.map mr p.Records.pr_methods)))
+                    (Records.pics_info im))) in
+           print_string (Printf.sprintf "OK %s %s %s %s %d | %s | %s | %s\n"
                            (nonempty (words im.Generator.im_int)) (nonempty (words im.Generator.im_jit))
                            (nonempty (bytes im.Generator.im_data)) (nonempty (bytes im.Generator.im_ss))
                            (List.length left)
                            (String.concat " " (List.map mrec ms))
-                           (String.concat " " (List.map erec im.Generator.im_elements))))
+                           (String.concat " " (List.map erec im.Generator.im_elements))
+                           recs))
       | _ -> print_string "BAD\n")
     done
   with End_of_file -> ()
